@@ -37,10 +37,9 @@ theorem fold_nil : (Model.cascade []).weight.isNone = true := by decide
 /-- `weight.Less` is a total preorder (this is all `fold_is_last_max` uses) -/
 theorem weight_less_total_preorder :
     (∀ a b : Model.Weight, a.less b = true ∨ b.less a = true) ∧
-    (∀ a b c : Model.Weight, a.less b = true → b.less c = true → a.less c = true) := by
-  constructor
-  · intro a b; simp only [less_iff, specLt_iff, spec_eq_iff]; omega
-  · intro a b c; simp only [less_iff, specLt_iff, spec_eq_iff]; omega
+    (∀ a b c : Model.Weight, a.less b = true → b.less c = true → a.less c = true) :=
+  ⟨fun a b => wle_totalPreorder.total ⟨a, 0⟩ ⟨b, 0⟩,
+   fun a b c => wle_totalPreorder.trans ⟨a, 0⟩ ⟨b, 0⟩ ⟨c, 0⟩⟩
 
 /-! ## the precedence table (regenerated from the real `declarationPrecedence` on every run) -/
 
@@ -100,52 +99,39 @@ theorem spec_le_total_preorder :
     (∀ a b c : Occ, Spec.le a b = true → Spec.le b c = true → Spec.le a c = true) :=
   ⟨sle_totalPreorder.total, sle_totalPreorder.trans⟩
 
-/-! ## the cascade
-
-  Full statement, FALSE on the current code (three confirmed defects, KF03-1/2/3):
-
-    theorem cascade_correct (doc : Doc) : Model.winner doc = Spec.docWinner doc
-
-  Proved below with the two excluding hypotheses; the `decide`-proved witnesses after it show that
-  neither can be dropped. When the defects are repaired the model changes (weight gets a style
-  attribute rank; own declarations are flushed before each nested rule; `:is(parent)` is prepended
-  to every `&`-less selector) and `insertions_eq` / `weights_agree` need no hypothesis. -/
+/-! ## the cascade -/
 
 /-- (order of visit) the declarations the code inserts are exactly the applicable declarations, in
     order of appearance: sheets in the order UA, hints, author (document order), user; `@import` at
-    its place and only where valid; non-matching `@media`, `<style media>`, rules never visited -/
-theorem insertions_are_spec_occurrences (doc : Doc) (h : NestedSafe doc) :
+    its place and only where valid; nested rules and the declarations around them in source order;
+    non-matching `@media`, `<style media>`, rules never visited — for every document -/
+theorem insertions_are_spec_occurrences (doc : Doc) :
     Model.insertions doc = (Spec.occs doc).map toW :=
-  insertions_eq doc h
+  insertions_eq doc
 
-/-- (weights) on occurrences without an id-selector/style-attribute conflict, comparing the code's
-    weights is comparing (origin/importance, style attribute, specificity) -/
-theorem weights_agree (occs : List Occ) (h : StyleAttrSafe occs) :
-    ∀ x ∈ occs, ∀ y ∈ occs, wle (toW x) (toW y) = Spec.le x y := by
-  intro x hx y hy
-  have h1 := h x hx y hy
-  have h2 := h y hy x hx
+/-- (weights) comparing the code's weights is comparing (origin/importance, style attribute,
+    specificity with presentational hints at zero) — for all occurrences -/
+theorem weights_agree (x y : Occ) : wle (toW x) (toW y) = Spec.le x y := by
   rw [Bool.eq_iff_iff, sle_iff]
   simp only [wle, toW, less_iff, declarationPrecedence_eq, specLt_iff, spec_eq_iff, Occ.rank, Occ.effSpec]
   obtain ⟨xo, xi, xk, ⟨x1, x2, x3⟩, xv⟩ := x
   obtain ⟨yo, yi, yk, ⟨y1, y2, y3⟩, yv⟩ := y
-  cases xk <;> cases yk <;> simp at h1 h2 ⊢ <;> omega
+  cases xk <;> cases yk <;> simp <;> omega
 
-/-- **cascade_correct_partial** — for every document (every set of sheets of every origin, every
-    nesting depth, every list of `@import`/`@media`, style attribute and hints), if
-    (KF03-1) no style-attribute declaration competes with an id-selector rule of the same rank and
-    (KF03-2/3) no rule has a declaration before a nested rule or a nested selector list with an
-    `&`-less non-first selector, then the value the code's cascade yields is the spec's winner. -/
-theorem cascade_correct_partial (doc : Doc) (hs : StyleAttrSafe (Spec.occs doc)) (hn : NestedSafe doc) :
-    Model.winner doc = Spec.docWinner doc := by
-  have hins := insertions_eq doc hn
+/-- **cascade_correct** — for every document (every set of sheets of every origin, every nesting
+    depth, every list of `@import`/`@media`, any style attribute and hints) the value the code's
+    cascade yields for the probe property on the probe element is the declaration CSS says wins:
+    the maximum by origin and importance, then style attribute over every selector, then
+    specificity (hints at zero), then order of appearance; `none` iff no declaration applies. -/
+theorem cascade_correct (doc : Doc) : Model.winner doc = Spec.docWinner doc := by
+  have hins := insertions_eq doc
   have hpos : ∀ d ∈ Model.insertions doc, 1 ≤ d.weight.precedence := by
     intro d hd
     rw [hins] at hd
     obtain ⟨o, _, rfl⟩ := List.mem_map.mp hd
     exact declarationPrecedence_pos _ _
   have hscan := cascade_eq_scan (Model.insertions doc) hpos
-  rw [hins, Scan.scan_map Spec.le wle toW (Spec.occs doc) (weights_agree _ hs)] at hscan
+  rw [hins, Scan.scan_map Spec.le wle toW (Spec.occs doc) (fun x _ y _ => weights_agree x y)] at hscan
   have hw : Model.winner doc = (toOpt (Model.cascade (Model.insertions doc))).map (·.val) := by
     unfold Model.winner toOpt
     simp only
@@ -159,45 +145,44 @@ theorem cascade_correct_partial (doc : Doc) (hs : StyleAttrSafe (Spec.occs doc))
     rw [hr, hwin]
     rfl
 
-/-! ### the hypotheses cannot be dropped: witnesses, replayed against the real code by the harness -/
+/-! ### the three defects repaired in /repo (2a2e8d6, aada089, 9b954c7), as positive examples;
+    the same documents are replayed against the real code first on every run (corpus/C03) -/
 
 def sel (a b c : Nat) : Sel := { spec := (a, b, c), ok := true }
 def docOf (styleAttr : List Decl) (author : List Item) : Doc :=
   { dev := .print, hints := false, styleAttr := styleAttr, hintAttr := [], ua := [], ph := [],
     author := [⟨[.all], author⟩], user := [] }
 
-/-- KF03-1: `<style>#a{p:1}</style> <x id=a style="p:2">` — the code yields 1, CSS says 2 -/
-def witness1 : Doc := docOf [⟨false, 2⟩] [.rule [sel 1 0 0] [.decl ⟨false, 1⟩]]
-theorem witness_styleattr_vs_id : Model.winner witness1 = some 1 ∧ Spec.docWinner witness1 = some 2 := by decide
+/-- `<style>#a#a{p:1}</style> <x id=a style="p:2">`: the style attribute wins -/
+def regression1 : Doc := docOf [⟨false, 2⟩] [.rule [sel 2 0 0] [.decl ⟨false, 1⟩]]
+example : Model.winner regression1 = some 2 ∧ Spec.docWinner regression1 = some 2 := by decide
 
-/-- KF03-2: `.c{p:1; &{p:2}}` — the code yields 1, CSS says 2 -/
-def witness2 : Doc :=
-  docOf [] [.rule [sel 0 1 0] [.decl ⟨false, 1⟩, .nested [{ spec := (0, 0, 0), ok := true, amp := true }] [.decl ⟨false, 2⟩]]]
-theorem witness_nested_before_own : Model.winner witness2 = some 1 ∧ Spec.docWinner witness2 = some 2 := by decide
+/-- `.c{p:1; &{p:2}; p:3}` and `.c{p:1; &{p:2}}`: order of appearance -/
+def regression2 (tail : List Body) : Doc :=
+  docOf [] [.rule [sel 0 1 0] ([.decl ⟨false, 1⟩, .nested [{ spec := (0, 0, 0), ok := true, amp := true }] [.decl ⟨false, 2⟩]] ++ tail)]
+example : Model.winner (regression2 []) = some 2 ∧ Spec.docWinner (regression2 []) = some 2 := by decide
+example : Model.winner (regression2 [.decl ⟨false, 3⟩]) = some 3 ∧ Spec.docWinner (regression2 [.decl ⟨false, 3⟩]) = some 3 := by decide
 
-/-- KF03-3: `#zz{ .x, .c {p:1} }` on an element of class c outside #zz — the code applies 1, CSS nothing -/
-def witness3 : Doc :=
+/-- `#zz{ .x, .c {p:1} }` on an element of class c outside #zz: nothing applies -/
+def regression3 : Doc :=
   docOf [] [.rule [{ spec := (1, 0, 0), ok := false }]
-    [.nested [{ spec := (0, 1, 0), ok := false }, { spec := (0, 1, 0), ok := false, bare := true }] [.decl ⟨false, 1⟩]]]
-theorem witness_nested_selector_list : Model.winner witness3 = some 1 ∧ Spec.docWinner witness3 = none := by decide
+    [.nested [{ spec := (0, 1, 0), ok := false }, { spec := (0, 1, 0), ok := false }] [.decl ⟨false, 1⟩]]]
+example : Model.winner regression3 = none ∧ Spec.docWinner regression3 = none := by decide
 
 /-! ## non-vacuity -/
 
-/-- three competing author declarations with a tie (`.c{p:1} #a{p:2} #a{p:3}`), a `!important` user
-    declaration, a nested rule after a nested rule, and a style attribute that does not meet an id
-    selector of its rank: the hypotheses hold and the winner is the user's -/
+/-- three competing author declarations with a tie (`.c{p:1} #a{p:2} #a{&{p:4}; p:3}`), an
+    `!important` style attribute, a hint, a UA rule and an `!important` user declaration: the user's wins -/
 def example1 : Doc :=
   { dev := .print, hints := true, styleAttr := [⟨true, 7⟩], hintAttr := [⟨false, 8⟩], ua := [.rule [sel 0 0 1] [.decl ⟨false, 9⟩]], ph := [],
     author := [⟨[.all], [.rule [sel 0 1 0] [.decl ⟨false, 1⟩], .rule [sel 1 0 0] [.decl ⟨false, 2⟩],
       .rule [sel 1 0 0] [.nested [{ spec := (0, 0, 0), ok := true, amp := true }] [.decl ⟨false, 4⟩], .decl ⟨false, 3⟩]]⟩],
     user := [[.rule [sel 0 0 0] [.decl ⟨true, 5⟩]]] }
 
-example : StyleAttrSafe (Spec.occs example1) ∧ NestedSafe example1 := by
-  constructor
-  · unfold StyleAttrSafe; decide
-  · unfold NestedSafe; decide
-example : Model.winner example1 = some 5 ∧ Spec.docWinner example1 = some 5 := by decide
-example : ∀ x ∈ [(⟨⟨3, (0, 1, 0)⟩, 1⟩ : Model.WValue), ⟨⟨3, (1, 0, 0)⟩, 2⟩, ⟨⟨3, (1, 0, 0)⟩, 3⟩], 1 ≤ x.weight.precedence := by decide
-example : Model.cascade [⟨⟨3, (0, 1, 0)⟩, 1⟩, ⟨⟨3, (1, 0, 0)⟩, 2⟩, ⟨⟨3, (1, 0, 0)⟩, 3⟩] = ⟨⟨3, (1, 0, 0)⟩, 3⟩ := by decide
+example : Model.winner example1 = some 5 ∧ Spec.docWinner example1 = some 5 ∧ (Spec.occs example1).length = 8 := by decide
+example : ∀ x ∈ [(⟨⟨3, false, (0, 1, 0)⟩, 1⟩ : Model.WValue), ⟨⟨3, false, (1, 0, 0)⟩, 2⟩, ⟨⟨3, false, (1, 0, 0)⟩, 3⟩],
+    1 ≤ x.weight.precedence := by decide
+example : Model.cascade [⟨⟨3, false, (0, 1, 0)⟩, 1⟩, ⟨⟨3, false, (1, 0, 0)⟩, 2⟩, ⟨⟨3, false, (1, 0, 0)⟩, 3⟩]
+    = ⟨⟨3, false, (1, 0, 0)⟩, 3⟩ := by decide
 
 end WR.Props.C03
